@@ -6,7 +6,7 @@ PROPS = {
         "rule": "policy sets of 0-8 policies (permit/forbid x satisfied/unsatisfied/erroring x static/template-linked), "
                 "all 6^n effect-outcome vectors n<=4 plus random sets; each run under 2 permutations, 2 id respellings, reversed entity "
                 "insertion order, reused and fresh Authorizer; non-trivial = has >=1 erroring policy and both effects; distinct by canonical text",
-        "theorems": ["allow_iff", "deny_otherwise", "errors_exact", "reasons_exact", "perm_invariant", "erroring_not_satisfied"],
+        "theorems": ["allow_iff", "deny_otherwise", "errors_exact", "reasons_exact", "perm_invariant", "erroring_not_satisfied", "store_extensional", "rename_equivariant", "mirror_eq_spec"],
         "assumptions": ["per-policy evaluation is tied to the code by C02's correspondence"],
     },
     "C02": {
